@@ -414,6 +414,76 @@ def d6(chk, prog):
     tb.done("by_shared_chroms pairs a chromosome's rows with rows of another chromosome (or drops / duplicates a chromosome)")
 
 
+def d7(chk, prog):
+    chk.clause("D7", "by_ranges / iter_slices: one result per query range, in order, also for a chromosome missing from the queried table")
+    lits = [("a", 0, 10), ("a", 10, 30), ("a", 25, 40), ("a", 50, 60), ("c", 5, 15)]
+    queries = [("a", 5, 12), ("a", 28, 55), ("b", 0, 10), ("b", 20, 30), ("b", 40, 50), ("c", 0, 5), ("a", 70, 80)]
+
+    def mk(rows, tag, labels=None):
+        df = DF({"chromosome": Vec([r[0] for r in rows], aligned=True), "start": Vec([r[1] for r in rows], aligned=True), "end": Vec([r[2] for r in rows], aligned=True),
+                 "id": Vec([f"{tag}{i}" for i in range(len(rows))], aligned=True)}, len(rows), "any")
+        df.exact = True
+        df.labels = labels if labels is not None else list(range(len(rows)))
+        return df
+    fi = prog.fn("skgenome.intersect.by_ranges")
+    tb = Table(chk, "one-per-query", "by_ranges on literal tables: (query row, overlapping / contained rows) per query range; chromosomes b (absent from the table) and c; modes x keep_empty", fi.loc(), fi.qn)
+    for mode, keep in itertools.product(["outer", "inner", "trim"], [True, False]):
+        W.reset()
+        t, o = mk(lits, "t"), mk(queries, "q")
+        it = Interp(prog)
+        out = tb.guard(lambda: list(it.run(fi.qn, [t, o, mode, keep])), f"mode={mode} keep_empty={keep}")
+        if out is None:
+            continue
+        want = []
+        for c in dict.fromkeys(q[0] for q in queries):
+            present = any(r[0] == c for r in lits)
+            for qi, q in enumerate(queries):
+                if q[0] != c:
+                    continue
+                if not present:
+                    if keep:
+                        want.append((f"q{qi}", []))
+                    continue
+                if mode == "inner":
+                    hit = [f"t{i}" for i, r in enumerate(lits) if r[0] == c and r[1] >= q[1] and r[2] <= q[2]]
+                else:
+                    hit = [f"t{i}" for i, r in enumerate(lits) if r[0] == c and r[2] > q[1] and r[1] < q[2]]
+                want.append((f"q{qi}", hit))
+        got = []
+        for brow, sub in out:
+            got.append((getattr(brow, "id", None), list(sub.cols["id"].v) if isinstance(sub, DF) else list(sub)))
+        tb.cell(got == want, dict(mode=mode, keep_empty=keep, got=got, want=want))
+    tb.done("by_ranges does not give one (query, rows) pair per query range in order (a chromosome missing from the table must yield empty results when keep_empty)")
+    fs = prog.fn("skgenome.intersect.iter_slices")
+    tb2 = Table(chk, "one-per-query", "iter_slices on literal tables with index labels that are not positions: label arrays per query range", fs.loc(), fs.qn)
+    labels = [40, 31, 22, 13, 4]
+    for mode, keep in itertools.product(["outer", "inner"], [True, False]):
+        W.reset()
+        t, o = mk(lits, "t", labels), mk(queries, "q")
+        it = Interp(prog)
+        out = tb2.guard(lambda: [list(x.v) if isinstance(x, Vec) else list(it.iterate(x)) for x in it.run(fs.qn, [t, o, mode, keep])], f"mode={mode} keep_empty={keep}")
+        if out is None:
+            continue
+        want = []
+        for c in dict.fromkeys(q[0] for q in queries):
+            present = any(r[0] == c for r in lits)
+            for q in queries:
+                if q[0] != c:
+                    continue
+                if not present:
+                    if keep:
+                        want.append([])
+                    continue
+                if mode == "inner":
+                    hit = [labels[i] for i, r in enumerate(lits) if r[0] == c and r[1] >= q[1] and r[2] <= q[2]]
+                else:
+                    hit = [labels[i] for i, r in enumerate(lits) if r[0] == c and r[2] > q[1] and r[1] < q[2]]
+                if keep or hit:
+                    want.append(hit)
+        tb2.cell(out == want, dict(mode=mode, keep_empty=keep, got=out, want=want))
+    tb2.done("iter_slices does not yield the index labels of each query range's rows, one array per query range")
+
+
 def run(chk):
     prog = chk.prog
     chk.trust("Python grammar via ast", "Series.searchsorted(q, side): 'left' = #{x < q}, 'right' = #{x <= q} on a sorted column; .loc label-based, .iloc position-based",
@@ -423,6 +493,7 @@ def run(chk):
     d4(chk, prog)
     d5(chk, prog)
     d6(chk, prog)
+    d7(chk, prog)
 
 
 _I = "skgenome/intersect.py"
